@@ -50,6 +50,8 @@ TYPED = (
     # years that need zero padding, the last representable second
     "DTSTART;VALUE=DATE:09990704", "DTSTART;VALUE=DATE:00120101", "DTSTART:08001225T093000", "DTSTAMP:09990102T030405Z",
     "RDATE;VALUE=DATE:09990704,00120301", "DTEND:99991231T235959Z", "RRULE:FREQ=YEARLY;UNTIL=09991231T000000Z",
+    # floats whose repr uses an exponent (tiny / huge), many digits
+    "GEO:0.00001234;103.819836", "GEO:-0.00000001;0.0", "GEO:37.386013123456;-122.082932987654", "GEO:-0.0;90.0",
     # every spelling of a duration the grammar allows: week form, explicit plus, zero parts
     "TRIGGER:-P1W", "DURATION:P2W", "TRIGGER:+PT15M", "TRIGGER;RELATED=END:+P1DT2H", "DURATION:PT0S", "TRIGGER:-PT0H0M0S", "DURATION:P1DT0H0M0S",
 )
